@@ -424,3 +424,30 @@ Definition truncate_to_chain_state (budget : Z) (blocks : list Z) (mn : mn3) (ta
     | Panic => Panic
     end
   else truncate_internal blocks mn target target w.
+
+(** * rewind_to_chain_state (tree part): the trees are truncated to the deepest checkpoint at or
+    above max(target, max_scanned - (depth - 1)) held by any pool; tree state at or below the
+    target is protected ([floor] = target) *)
+Definition min_ck_at_or_above (m : ckmap) (h : Z) : option Z :=
+  zmin_list (filter (fun x => h <=? x) (ck_dom m)).
+Definition omin (a b : option Z) : option Z :=
+  match a, b with
+  | Some x, Some y => Some (Z.min x y)
+  | Some x, None => Some x
+  | None, y => y
+  end.
+Definition rewind_to_chain_state (depth : Z) (blocks : list Z) (mn : mn3) (target : Z) (w : w3)
+  : outcome w3 perr :=
+  match zmax_list blocks with
+  | Some maxs =>
+      if target <? maxs then
+        let pf := Z.max 0 (maxs - (depth - 1)) in
+        let tt := Z.max target pf in
+        let '(ws, wo, wi) := w in
+        let floor := omin (omin (min_ck_at_or_above (ck ws) tt) (min_ck_at_or_above (ck wo) tt))
+                          (min_ck_at_or_above (ck wi) tt) in
+        let th := match floor with Some x => x | None => pf end in
+        truncate_internal blocks mn th target w
+      else Ok w
+  | None => Ok w
+  end.
